@@ -35,6 +35,7 @@ type ReadPaths struct {
 	wantCall string
 	found    []InlinedInstr
 	phiSeen  map[*ssa.Phi]bool
+	rootFrame *rpFrame // calling context in which the root returned by pathAndRoot lives
 }
 
 type rpFrame struct {
@@ -801,6 +802,7 @@ func (r *ReadPaths) pathAndRoot(v ssa.Value, fr *rpFrame, depth int) (string, ss
 	case *ssa.Parameter:
 		if fr != nil {
 			if i := ParamIndex(fr.callee, x); i >= 0 && i < len(fr.args) {
+				r.rootFrame = fr.parent
 				return r.pathAndRoot(fr.args[i], fr.parent, depth+1)
 			}
 		}
@@ -867,4 +869,13 @@ func (c *Ctx) PathAndRootOf(v ssa.Value) (string, ssa.Value) {
 	}
 	r := &ReadPaths{c: c}
 	return r.pathAndRoot(v, nil, 0)
+}
+
+// ReachWithOracle: can block `to` be reached from block `from` (same function)
+// when the conditions decided by oracle take their decided value? Undecided
+// conditions are explored both ways. With viaPred, the edge viaPred->to must be
+// the last one taken.
+func ReachWithOracle(c *Ctx, from, to, viaPred *ssa.BasicBlock, oracle func(v ssa.Value) (bool, bool)) bool {
+	k := &kindEval{c: c, oracle: oracle, subjectPath: "\x00none"}
+	return k.walk(from, to, viaPred, nil)
 }
